@@ -274,8 +274,19 @@ def r16_5(ctx):
         ("for msg_path2, sequences, mtime2 in copy_msgs:\n    ...", "messages are written in the order they were read"),
         ("await utime(mbox_msg_path(dst_mbox.mailbox, msg_key2), (mtime2, mtime2))", "internal date (mtime) carried to the copy"),
         ("for sequence in sequences:\n    dest_mbox_seqs[sequence].add(msg_key2)", "flags (sequences) carried to the copy"),
+        ("with open(msg_path, 'wb') as f:\n    f.write(msg)", "the bytes read are what is written to the staging file"),
+        ("_, src_uid = self.get_uid_from_msg(msg_key)", "source UID looked up for the key being read"),
+        ("src_uids.append(src_uid)", "every source message's UID is reported (MOVE removes exactly these)"),
+        ("with open(msg_path2, 'rb') as f2:\n    msg2 = f2.read()", "the staged bytes are what is added to the destination"),
+        ("msg_key2 = int(dst_mbox.mailbox.add(msg2))", "the staged bytes are added to the destination folder, its key kept"),
+        ("dst_msg_keys.append(msg_key2)", "destination keys recorded in the order added"),
+        ("dst_mbox.set_sequences_in_folder(dest_mbox_seqs)", "the copies' flags are written to the destination's .mh_sequences"),
+        ("for k in dst_msg_keys:\n    _, dst_uid = dst_mbox.get_uid_from_msg(k)\n    dst_uids.append(dst_uid)", "destination UIDs looked up per added key, in order"),
+        ("return (src_uids, dst_uids)", "source and destination UIDs returned pairwise"),
     ):
-        if pm.has(pat) or pm.has(pat.replace("msg_path2", "msg_path").replace("mtime2", "mtime").replace("msg_key2", "msg_key")):
+        # the write loop may re-use the read loop's local names: try the pattern with the names already bound first (a fresh
+        # variable would unify with any statement of the same shape)
+        if pm.has(pat.replace("msg_path2", "msg_path").replace("mtime2", "mtime").replace("msg_key2", "msg_key").replace("msg2", "msg").replace("f2", "f")) or pm.has(pat):
             ctx.ok("R16.5", where(fi), what)
         else:
             ctx.bad("R16.5", fi.module, fi.qual, what, f"copy() lost: {what}", fi.node.lineno)
